@@ -111,7 +111,10 @@ claim("C10", PR, TECH_PR,
       "Theorem C10_verify_transcode: for EVERY abstract presentation — honest or tampered — the verifier makes the same decision and returns "
       "the same claims on its compact text and on its JSON text (kb_jwt absent / null / string, unknown extra members), in both directions and "
       "for any JSON spelling (C10_verify_json_to_compact, C10_verify_compact_to_json); holders built from either form select the same "
-      "disclosures. The run transcodes honest and tampered inputs (C02-C04 generators) both ways on the implementation.",
+      "disclosures; C10_verify_transcode_raw extends this to JSON texts whose unknown members are ANY texts serde's syntactic skipping accepts "
+      "(any nesting depth, any number size), placed anywhere among the known members, the model reading the JSON form as serde does "
+      "(C10_unknown_members_lax). The run transcodes honest and tampered inputs (C02-C04 generators) both ways on the implementation, with raw "
+      "unknown members, other spellings of the envelope and re-signed headers.",
       NOTE_PR % ("C10", "side condition: parts expressible in both formats (no '~' in any part, no '.' inside a JWT part)"))
 claim("C11", PR, TECH_PR,
       "Theorems: the issuer as a state machine with every field of the Rust struct computes, from ANY state, what a fresh instance computes "
